@@ -633,11 +633,13 @@ func Monitor(prop string, c Case, sch *Schema, obs []OpObs) []Failure {
 					st := -1
 					p := strings.Split(last, ":")
 					switch p[0] {
-					case "enter", "exit":
+					case "enter":
 						fmt.Sscan(p[1], &st)
 					case "trans":
 						fmt.Sscan(p[2], &st)
 					}
+					// an Exit veto (of any state) is not a called state's own handler:
+					// it stops the transition like any negotiation veto
 					if st < 0 || st >= n || !sch.Defs[st].Auto {
 						continue
 					}
@@ -699,6 +701,88 @@ func Monitor(prop string, c Case, sch *Schema, obs []OpObs) []Failure {
 				}
 			} else if next != nil && next.TI.IsAuto {
 				add(tx.Line, "", "unexpected auto mutation after a transition that %s", "should not trigger one")
+			}
+		}
+	case "C08":
+		for li, o := range obs {
+			if o.Crash != "" {
+				add(li, "", "the call did not return normally: %s", o.Crash)
+			}
+			if !o.IsOp {
+				continue
+			}
+			// parity after any fault
+			act := setOf(o.Active)
+			for i := 0; i < n && i < len(o.Clock); i++ {
+				if act[i] != (o.Clock[i]%2 == 1) {
+					add(li, "", "parity after fault: state %d active=%v tick=%d", i, act[i], o.Clock[i])
+				}
+			}
+			// walk the events of this op: find faults in final handlers
+			var lastH *Event
+			var tf *Event
+			var ti *Event
+			var finalsDone []int
+			for i := range o.Events {
+				e := &o.Events[i]
+				switch e.Kind {
+				case "TI":
+					ti, tf, lastH, finalsDone = e, nil, nil, nil
+				case "TF":
+					tf = e
+				case "H":
+					if tf != nil && lastH != nil && strings.HasPrefix(lastH.HName, "state:") {
+						var s int
+						fmt.Sscan(lastH.HName[6:], &s)
+						finalsDone = append(finalsDone, s)
+					}
+					lastH = e
+				case "MQ":
+					// the Exception prepended by recoverToErr
+					if e.QTickMut == 0 && e.HasArgs && !e.IsAuto && len(e.Called) == 1 && e.Called[0] == sch.Exc && ti != nil {
+						if tf == nil {
+							// negotiation fault: nothing may move
+							continue
+						}
+						if lastH == nil {
+							continue
+						}
+						// find the TE of this tx
+						var te *Event
+						for j := i; j < len(o.Events); j++ {
+							if o.Events[j].Kind == "TE" {
+								te = &o.Events[j]
+								break
+							}
+						}
+						if te == nil {
+							continue
+						}
+						aft := setOf(te.Active)
+						if strings.HasPrefix(lastH.HName, "state:") {
+							var p int
+							fmt.Sscan(lastH.HName[6:], &p)
+							if aft[p] && !contains(ti.Called, sch.Exc) {
+								add(li, "", "state %d stayed active although its State handler panicked", p)
+							}
+							for _, s := range finalsDone {
+								if s != p && !aft[s] && setOf(tf.Active)[s] {
+									add(li, "", "state %d was rolled back although its State handler had completed", s)
+								}
+							}
+						} else if strings.HasPrefix(lastH.HName, "end:") {
+							var p int
+							fmt.Sscan(lastH.HName[4:], &p)
+							if !aft[p] && !contains(ti.Called, sch.Exc) {
+								add(li, "C08-end-handler-panic-no-rollback", "deactivation of %d was not rolled back although its End handler panicked", p)
+							}
+						}
+					}
+				case "TE":
+					if ti != nil && tf == nil && !eqU64(e.TB, e.TA) {
+						add(li, "", "a fault during negotiation moved the clock")
+					}
+				}
 			}
 		}
 	case "C19":
